@@ -178,6 +178,12 @@ fn mesh_scenario(w: &mut World, ctx: &RunCtx, states: &mut Vec<u64>) -> Result<(
     // repeated by the reconnect timer (back-off below 64 s at that point)
     let very_late = if w.ch.chance("very_late_start", 150) { Some(w.ch.choose("very_late_node", n as u32) as usize) } else { None };
     let mut last_start = 0u64;
+    let crash_mid = if w.ch.chance("crash_in_mid_handshake", 60) { Some(w.ch.choose("crash_mid_node", n as u32) as usize) } else { None };
+    if crash_mid.is_some() {
+        // a restarted node and a peer whose handshake object still lingers bounce repeated handshake messages at
+        // round-trip speed for up to two minutes: a longer round trip keeps such runs affordable
+        w.net.base_ms = 80;
+    }
     for i in 0..n {
         let delay = if very_late == Some(i) {
             w.count("c14_node_started_after_handshake_horizon");
@@ -189,15 +195,30 @@ fn mesh_scenario(w: &mut World, ctx: &RunCtx, states: &mut Vec<u64>) -> Result<(
         };
         last_start = last_start.max(delay);
         w.schedule_action(delay, 1, i as u64);
+        // a node may crash in the middle of its first handshakes and come back on the same address: the half-open
+        // handshakes it leaves behind at its peers must not keep it out for good
+        if crash_mid == Some(i) {
+            let at = delay + 2 + w.ch.choose("crash_after_ms", 60) as u64;
+            let back = at + 300 + w.ch.choose("crash_down_ms", 4_000) as u64;
+            w.schedule_action(at, 2, i as u64);
+            w.schedule_action(back, 1, i as u64);
+            last_start = last_start.max(back);
+            w.count("c14_crashes_in_mid_handshake");
+        }
     }
     let interval_s = 90u64; // default peer timeout 300: min(300/2-60, ...) = 90
-    let bound_s = if use_nat { 10 * interval_s } else { (diam as u64 + 2) * interval_s } + 30 + 30 + if very_late.is_some() { last_start / 1000 + 130 } else { 0 };
+    let bound_s = if use_nat { 10 * interval_s } else { (diam as u64 + 2) * interval_s } + 30 + 30 + if very_late.is_some() { last_start / 1000 + 130 } else { 0 } + if crash_mid.is_some() { last_start / 1000 + 330 } else { 0 };
     let deadline = bound_s * 1000;
     let pairs = mesh::all_pairs(n);
     let mut meshed_at = None;
     let mut next_check = 0;
     while let Some(st) = w.step(deadline) {
         guard(w, &st)?;
+        if let super::world::StepKind::Action(2, i) = st.kind {
+            if w.is_up(i as usize) {
+                w.crash_node(i as usize);
+            }
+        }
         if let super::world::StepKind::Action(1, i) = st.kind {
             let s = w.start_node(i as usize);
             guard(w, &s)?;
